@@ -1,5 +1,6 @@
 import Sm9.Proofs.Consts
 import Sm9.Proofs.MillerFrobenius
+import Sm9.Proofs.MillerNaf
 /-!
 # C02 — Pairing values equal the SM9 R-ate pairing, byte for byte
 
@@ -16,9 +17,14 @@ model pairings by kernel evaluation.
 Mathlib's Weierstrass point group of the twist: `f_{6t+2,Q}(P)` by the double-and-add chain with
 line values `y_P − λ·x_P·w⁻¹ + (λ·x_T − y_T)·w⁻³`, times `l_{[6t+2]Q, π(Q)}(P)` and
 `l_{[6t+2]Q+π(Q), −π²(Q)}(P)`, `π` the `q`-Frobenius transported to the twist.
-For `pairing()` (the numerator/denominator Miller loop over the signed-digit chain) equality
-with the same function is decided by the three-way correspondence against `Sm9.Spec.rate`
-(partial: the chain-independence of Miller functions needs divisor theory; DESIGN.md §6 C02).
+**`pairing()`** (the numerator/denominator Miller loop over the signed-digit chain) is likewise the
+textbook Miller function *of that chain*, reduced (`pairing_is_rate_pairing_signed_chain`:
+`Miller.specMillerNaf`, same lines, digits 0/1/−1, same two Frobenius lines; the coded loop returns
+exactly `−specMillerNaf`).  That the two textbook functions have the same reduced value — independence
+of the Miller function of the addition chain, a statement about divisors — is not proved in general
+(`pairing_agreement_iff_chain_independence` reduces the agreement of the entry points to exactly that;
+it is proved at the standard's test vector, `Sm9.C03.chain_independence_at_known_answer`) and is decided by the
+three-way correspondence against `Sm9.Spec.rate` (DESIGN.md §6 C02).
 -/
 namespace Sm9.C02
 
@@ -73,6 +79,29 @@ theorem prepared_pairing_is_rate_pairing (P : G1) (Q : G2) (hPz : P.z ≠ 0) (hP
     (do let pr ← Api.prepare Q; Api.preparedPairing pr P)
       = .ok (specMiller (P.x / P.z ^ 2) (P.y / P.z ^ 3) (Q.x / Q.z ^ 2) (Q.y / Q.z ^ 3) ^ ((q ^ 12 - 1) / r)) :=
   (api_prepared_eq_fast P Q).trans (api_fast_pairing_eq_spec_G2 P Q hPz hPv hQz hQv k hk)
+open Miller in
+/-- **`pairing()` is the reduced textbook Miller function of the signed-digit chain** on all of
+    `(E(Fq) ∖ O) × (⟨P2⟩ ∖ O)`, for any Jacobian representatives -/
+theorem pairing_is_rate_pairing_signed_chain (P : G1) (Q : G2) (hPz : P.z ≠ 0) (hPv : G1.Valid P) (hQz : Q.z ≠ 0)
+    (hQv : G2.Valid Q) (k : Nat) (hk : G2.toAff Q = k • G2.toAff (G.one : G2)) :
+    Api.pairing P Q
+      = .ok (specMillerNaf (P.x / P.z ^ 2) (P.y / P.z ^ 3) (Q.x / Q.z ^ 2) (Q.y / Q.z ^ 3) ^ ((q ^ 12 - 1) / r)) :=
+  api_pairing_eq_spec_G2 P Q hPz hPv hQz hQv k hk
+open Miller in
+/-- the numerator/denominator loop returns exactly minus the textbook function of its chain -/
+theorem signed_chain_miller_is_textbook (P : G1) (xQ yQ : Fq2) (hQ : yQ * yQ = xQ * xQ * xQ + b2)
+    (k : Nat) (hk : twPt (xQ, yQ) = k • twPt genXY) :
+    G2m.miller_loop (⟨xQ, yQ, 1⟩ : G2) P = .ok (-specMillerNaf P.x P.y xQ yQ) :=
+  naf_miller_eq_spec_G2 P xQ yQ hQ k hk
+open Miller in
+/-- the entry points agree on an input exactly when the two textbook Miller functions (binary chain,
+    signed-digit chain) have the same reduced value there -/
+theorem pairing_agreement_iff_chain_independence (P : G1) (Q : G2) (hPz : P.z ≠ 0) (hPv : G1.Valid P)
+    (hQz : Q.z ≠ 0) (hQv : G2.Valid Q) (k : Nat) (hk : G2.toAff Q = k • G2.toAff (G.one : G2)) :
+    Api.pairing P Q = Api.fast_pairing P Q ↔
+      specMillerNaf (P.x / P.z ^ 2) (P.y / P.z ^ 3) (Q.x / Q.z ^ 2) (Q.y / Q.z ^ 3) ^ ((q ^ 12 - 1) / r)
+        = specMiller (P.x / P.z ^ 2) (P.y / P.z ^ 3) (Q.x / Q.z ^ 2) (Q.y / Q.z ^ 3) ^ ((q ^ 12 - 1) / r) :=
+  api_pairing_eq_fast_pairing_iff P Q hPz hPv hQz hQv k hk
 open Miller in
 /-- the textbook line value in the tower basis is `y_P − λ·x_P·w⁻¹ + (λ·x_T − y_T)·w⁻³` -/
 theorem line_value_formula (xT yT lam : Fq2) (xP yP : Fq) :
